@@ -496,6 +496,8 @@ def inline_new_temporaries(fnode, base_names, stats):
           break
         inert = isinstance(st, ast.Assign) and all(isinstance(t, (ast.Name, ast.Tuple)) for t in st.targets) and (
           _is_pure(st.value) or all(isinstance(t, ast.Name) and t.id not in base_names for t in st.targets))
+        if isinstance(st, ast.FunctionDef) and not st.decorator_list and not st.args.defaults and not st.args.kw_defaults:
+          inert = True        # defining a function evaluates nothing
         if not inert:
           break
       if tgt is None:
